@@ -16,8 +16,8 @@
    code leaves that field of its receiver untouched.  Domain: the property's (leaf taxa present and
    pairwise distinct, on leaves only) plus distinct node identities, which every Python tree has. *)
 From Coq Require Import ZArith QArith List Bool.
-From DV Require Import Model.PyPrims Model.Tree Model.C14Model Model.C14Spec Model.C14Spec2 Model.C14GenPrims Model.C14GenObj Model.C14GenMrcaPrims Gen.Pdm.
-From DV Require Import Proofs.C14GenTop Proofs.C14NjGen.
+From DV Require Import Model.PyPrims Model.Tree Model.C14Model Model.C14Spec Model.C14Spec2 Model.C14Spec3 Model.C14GenPrims Model.C14GenObj Model.C14GenMrcaPrims Gen.Pdm.
+From DV Require Import Proofs.C14GenTop Proofs.C14NjGen Proofs.C14NjUniqGen.
 Import ListNotations.
 Open Scope Z_scope.
 
@@ -306,6 +306,48 @@ Theorem gen_nj_recovers_tree :
                    exists q d, qdist T a b = Some q /\ dist t a b = Some d /\ (q == uq d)%Q.
 Proof. exact gen_nj_recovers_tree_top. Qed.
 Print Assumptions gen_nj_recovers_tree.
+
+(* SIXTH WAVE (Props/C14.v tree_metric_unique, nj_returns_tree_of_matrix, nj_returns_generating_tree): the
+   generated nj_tree program returns THE tree of the matrix -- on every complete symmetric non-negative
+   matrix with the triangle inequality and the strictly resolved four-point condition, the tree read off
+   the heap has exactly the taxa iterated and carries on every bipartition of them the same total edge
+   length as any tree (any shape, no negative split) realising the matrix; in particular, on the distance
+   matrix of a binary tree with positive internal edge lengths, the generating tree's unrooted splits with
+   their lengths (definitions: Model/C14Spec3.v, explained in Props/C14.v). *)
+Theorem gen_nj_returns_tree_of_matrix :
+  forall (none_key : Z) (M : tbl Q) (order : list Z),
+  NoDup order -> order <> [] -> mcomplete M order -> msymmetric M order ->
+  mfour_point_strict M order -> mtriangle M order -> mnonneg M order ->
+  exists T i hp, PDM_nj_tree none_key (length order) M order = Ok (i, hp) /\
+    (forall fuel, (qdepth T <= fuel)%nat -> rebuild fuel hp i = Ok T) /\
+    (forall a b, In a order -> In b order -> a <> b -> exists q, qdist T a b = Some q /\ (q == mval M a b)%Q) /\
+    qleaves_ok T /\ NoDup (qtaxa T) /\ (forall a, qhas a T = true <-> In a order) /\
+    split_nonneg T /\
+    forall T', qleaves_ok T' -> NoDup (qtaxa T') -> (forall a, qhas a T' = true <-> In a order) -> split_nonneg T' ->
+      (forall a b, In a order -> In b order -> a <> b -> exists q, qdist T' a b = Some q /\ (q == mval M a b)%Q) ->
+      forall s, proper_split order s -> (split_len T s == split_len T' s)%Q.
+Proof. exact gen_nj_unique_top. Qed.
+Print Assumptions gen_nj_returns_tree_of_matrix.
+
+Theorem gen_nj_returns_generating_tree :
+  forall (none_key : Z) (t : tree) (p : pdm) (order : list Z),
+  rbin t -> good_leaves t -> t_kids t <> [] -> positive_internal t -> nonneg_lengths t ->
+  compile_from_tree t = Ok p ->
+  NoDup order -> (forall a, In a order <-> In (Some a) (leaf_taxa t)) ->
+  exists T i hp, PDM_nj_tree none_key (length order) (qtable p true) order = Ok (i, hp) /\
+    (forall fuel, (qdepth T <= fuel)%nat -> rebuild fuel hp i = Ok T) /\
+    qleaves_ok T /\ NoDup (qtaxa T) /\ (forall a, qhas a T = true <-> In a order) /\
+    (forall s, proper_split order s -> (split_len T s == split_len (tq t) s)%Q) /\
+    (forall m, In m (qnodes (tq t)) -> q_kids m <> [] -> proper_split order (qcl m) ->
+       (0 < split_len (tq t) (qcl m))%Q /\
+       exists m', In m' (qnodes T) /\ same_split order (qcl m) (qcl m') = true) /\
+    (forall m', In m' (qnodes T) ->
+       (exists x x', x <> x' /\ qcl m' x = true /\ qcl m' x' = true) ->
+       (exists y y', y <> y' /\ In y order /\ In y' order /\ qcl m' y = false /\ qcl m' y' = false) ->
+       (0 < split_len T (qcl m'))%Q /\
+       exists m, In m (qnodes (tq t)) /\ same_split order (qcl m') (qcl m) = true).
+Proof. exact gen_nj_returns_generating_tree_top. Qed.
+Print Assumptions gen_nj_returns_generating_tree.
 
 (* non-vacuity: a tree in the domain, both sides computed; the generated descent on it *)
 Theorem gen_compile_from_tree_example :
